@@ -40,6 +40,26 @@ def r61(F):
         r.inst("%s:no-raw-writes" % name.split("::")[-1], fn.where(), not raw, "no raw write / cdata" if not raw else "content bypasses the event writer: %s" % raw)
     wn = F.fn(X + "write_node")
     chars = [b for b, t in wn.calls() if callee(t).endswith("XmlEvent::characters")]
+    # a bare string child is always written: on the Str arm of the match on the node value every path to a successful return
+    # passes a characters() event (no test of the string's content decides whether it is written)
+    own = Origins(wn)
+    ev_writes = {b for b, t in wn.calls() if callee(t).endswith("EventWriter::write") and
+                 any(c.endswith("XmlEvent::characters") for c in calls_in(own.at(t["args"][1], b)))}
+    str_arms = []
+    for b in range(len(wn.blocks)):
+        t0 = wn.term(b)
+        if t0["k"] == "switch" and t0.get("enum") == VAL and not wn.is_cleanup(b) and "src" in t0 and \
+                (t0["src"]["l"] == 2 or 2 in own.alias[t0["src"]["l"]]):
+            e = cfg.switch_edge(t0, variant="Str")
+            if e is not None and e != t0.get("otherwise"):
+                str_arms.append((b, e))
+    oks_ = util.result_blocks(wn, "Ok")
+    if str_arms and ev_writes:
+        okb = all(not (cfg.reachable(wn, e, removed=ev_writes) & oks_) for b, e in str_arms)
+        r.inst("write_node:bare-string-written", wn.where(str_arms[0][0]), okb,
+               "a string child always produces a characters() event" if okb else
+               "a string child can be skipped (a path of the Str arm returns Ok without writing it): white space a document asks for "
+               "between two elements is dropped")
     r.inst("write_node:text-events", wn.where(), len(chars) >= 2, "%d characters() events (text field, bare string)" % len(chars) if len(chars) >= 2 else "text is not written through XmlEvent::characters")
     return r
 
@@ -176,6 +196,25 @@ def r90(F):
                 found = True
                 r.inst("write_node:prefix-edge", wn.where(sb), ok, "empty prefix -> default_ns, else ns(prefix, uri)" if ok else "namespace edges crossed: empty prefix does not declare the default namespace")
     need(found, "prefix.is_empty() switch not found")
+    # the declaration depends on the `ns` field alone: it may not sit under the test of another optional part of the node
+    # (an element without attributes keeps its namespace)
+    others = set()
+    for nm in ("attrs", "children", "text"):
+        others |= set(wn.locals_named(nm))
+    bad_dep = []
+    for b in range(len(wn.blocks)):
+        t0 = wn.term(b)
+        if t0["k"] == "switch" and t0.get("enum") == "core::option::Option" and "src" in t0 and not wn.is_cleanup(b) and \
+                (t0["src"]["l"] in others or set(util.copies_of(wn, t0["src"]["l"], allow_not=False)) & others or
+                 any(t0["src"]["l"] in util.copies_of(wn, x, allow_not=False) for x in others)):
+            se = cfg.switch_edge(t0, variant="Some")
+            for nb_ in dn + ns:
+                if se is not None and cfg.dominates(wn, se, nb_):
+                    bad_dep.append((b, nb_))
+    r.inst("write_node:ns-independent", wn.where(bad_dep[0][0]) if bad_dep else wn.where(ns[0]), not bad_dep,
+           "the namespace declaration depends on the ns field only" if not bad_dep else
+           "the namespace is declared only when another optional field (attrs / children / text) is present: an element with `ns` and "
+           "no attributes loses its xmlns declaration and its prefixed children become unbound")
     o = Origins(wn)
     t = wn.term(ns[0])
     l1, l2 = o.at(t["args"][1], ns[0]), o.at(t["args"][2], ns[0])
@@ -307,4 +346,6 @@ def r63e(F):
     return r
 
 
-RULES = [r61, r69, r62, r90, r63, r69v, r63e]
+from . import c11 as _c11
+
+RULES = [r61, r69, r62, r90, r63, r69v, r63e, _c11.r72]
